@@ -39,7 +39,10 @@ fn render_expr(e: &Value) -> String {
     match k.as_str() {
         "mcall" => {
             let args: Vec<String> = arr(e, "args").iter().map(render_expr).collect();
-            format!("{}.{}({})", render_expr(&e["recv"]), s(e, "method"), args.join(", "))
+            // explicit generic arguments on the call (`emit_to::<&str, Progress>(..)`): no part of the method's name
+            let tf = s(e, "turbofish");
+            let tf = if tf.is_empty() { String::new() } else { format!("::<{}>", tf) };
+            format!("{}.{}{}({})", render_expr(&e["recv"]), s(e, "method"), tf, args.join(", "))
         }
         "call" => {
             let args: Vec<String> = arr(e, "args").iter().map(render_expr).collect();
@@ -406,6 +409,8 @@ pub fn exec_project(input: &Value) -> (Value, Value) {
     let project_arg: String = if relative {
         let _ = std::env::set_current_dir(src.parent().unwrap());
         "src-tauri".to_string()
+    } else if input["project"].get("trailing_slash").and_then(|x| x.as_bool()).unwrap_or(false) {
+        format!("{}/", src.to_string_lossy())
     } else {
         src.to_string_lossy().to_string()
     };
@@ -561,7 +566,7 @@ fn raw_param(pat: &str, ty_text: &str, kind: &str) -> Value {
 pub const INJECTED: &[&str] = &[
     "AppHandle", "tauri::AppHandle", "State<'_, AppState>", "tauri::State<'_, Db>", "Window<R>", "tauri::Window",
     "WebviewWindow", "tauri::WebviewWindow", "tauri::ipc::Request<'_>", "tauri::State<'_, std::sync::Mutex<Db>>",
-    "AppHandle<R>", "::tauri::AppHandle", "::tauri::State<'_, Db>",
+    "AppHandle<R>", "::tauri::AppHandle", "::tauri::State<'_, Db>", "State<'_, Mutex<Vec<Channel<LogLine>>>>", "tauri::State<'_, Registry<Channel<u8>>>",
 ];
 pub const NOT_INJECTED: &[&str] = &["Window", "State", "my::AppState", "Request", "other::Window", "Channel"];
 pub const CHANNELS: &[&str] = &["Channel<{}>", "tauri::ipc::Channel<{}>", "tauri::Channel<{}>", "::tauri::ipc::Channel<{}>"];
@@ -663,7 +668,11 @@ fn emit_expr(rng: &mut Rng, ev_names: &[&str], type_names: &[String], locals_all
     } else {
         ("emit", vec![name_expr, payload])
     };
-    json!({"k": "mcall", "recv": recv, "method": method, "args": args})
+    let mut call = json!({"k": "mcall", "recv": recv, "method": method, "args": args});
+    if rng.chance(1, 6) {
+        call["turbofish"] = json!(*rng.pick(if method == "emit_to" { &["&str, Progress", "_, Progress", "_, _", "String, Vec<u8>"][..] } else { &["Progress", "_", "Vec<(u8, String)>"][..] }));
+    }
+    call
 }
 
 /// initialiser of an annotated `let`: the annotation decides the type, whatever the initialiser looks like
@@ -755,12 +764,19 @@ pub fn random_project(rng: &mut Rng, nfiles: usize, adversarial: bool, externs: 
                 attrs.insert(0, last);
             }
         }
+        if rng.chance(1, 6) {
+            attrs.insert(0, attr(*rng.pick(&["cfg(not(test))", "cfg(any(test, feature = \"full\"))", "cfg(feature = \"test-utils\")", "cfg_attr(test, derive(PartialEq))", "allow(dead_code)", "non_exhaustive"])));
+        }
         let f = rng.below(nfiles);
         if rng.chance(1, 4) {
             let variants: Vec<Value> = (0..1 + rng.below(4)).map(|k| {
                 let mut va = Vec::new();
                 if rng.chance(1, 5) {
-                    va.push(attr(&format!("serde(rename = \"v{}\")", k)));
+                    if adversarial && rng.chance(1, 4) {
+                        va.push(attr(*rng.pick(&["serde(rename = \"line\\nbreak\")", "serde(rename = \"C:\\\\dir\")", "serde(rename = \"tab\\there\")"])));
+                    } else {
+                        va.push(attr(&format!("serde(rename = \"v{}\")", k)));
+                    }
                 }
                 let shape = if adversarial && rng.chance(1, 3) { *rng.pick(&["tuple", "struct"]) } else { "unit" };
                 json!({"name": format!("{}{}", rng.pick(&["Active", "Pending", "Done", "InProgress", "Ok"]), k), "attrs": va, "shape": shape})
@@ -996,7 +1012,7 @@ pub fn random_project(rng: &mut Rng, nfiles: usize, adversarial: bool, externs: 
             body.push(json!({"k": "expr", "e": {"k": "mcall", "recv": e, "method": "ok", "args": []}}));
         }
         body.push(json!({"k": "other", "text": "todo!()"}));
-        let cmd_attr = *rng.pick(&["tauri::command", "tauri::command", "command", "tauri::command(rename_all = \"snake_case\")", "tauri::command(async)"]);
+        let cmd_attr = *rng.pick(&["tauri::command", "tauri::command", "command", "tauri::command(rename_all = \"snake_case\")", "tauri::command(async)", "tauri::command(rename_all = \"camelCase\", async)", "tauri::command(root = \"crate\")"]);
         let mut attrs = Vec::new();
         if rng.chance(1, 3) {
             attrs.push(attr(*rng.pick(&["allow(dead_code)", "cfg(not(test))", "cfg(feature = \"testing\")", "inline", "cfg_attr(debug_assertions, allow(unused))", "must_use"])));
@@ -1066,6 +1082,21 @@ pub fn random_project(rng: &mut Rng, nfiles: usize, adversarial: bool, externs: 
         let f = rng.below(nfiles);
         items_per_file[f].push(json!({"k": "fn", "name": "load_tri", "attrs": [attr("tauri::command")], "vis": "pub", "async": false,
             "params": [], "ret": ty_json(&named("TriA")), "body": [{"k": "other", "text": "todo!()"}]}));
+    }
+    // a function without parameters emitting on the result of a method chain rooted in a global
+    if rng.chance(1, 3) {
+        let f = rng.below(nfiles);
+        let ev = rng.pick(&ev_names).to_string();
+        let recv = json!({"k": "mcall", "recv": {"k": "mcall", "recv": {"k": "path", "segs": ["APP"]}, "method": "get", "args": []}, "method": "unwrap", "args": []});
+        let call = json!({"k": "mcall", "recv": recv, "method": "emit", "args": [{"k": "lit", "text": format!("{:?}", ev), "lit": "str", "value": ev}, {"k": "lit", "text": "7", "lit": "int"}]});
+        items_per_file[f].push(json!({"k": "fn", "name": format!("tick_{}", f), "attrs": [], "vis": "pub", "async": false, "params": [], "ret": null,
+            "body": [{"k": "expr", "e": {"k": "mcall", "recv": call, "method": "ok", "args": []}}]}));
+    }
+    // the handler registration lists only some of the commands (others are registered by a plugin / behind a feature)
+    if rng.chance(1, 3) && !cmd_names_so_far.is_empty() {
+        let f = rng.below(nfiles);
+        let listed: Vec<String> = cmd_names_so_far.iter().filter(|_| rng.chance(1, 2)).cloned().collect();
+        items_per_file[f].push(json!({"k": "other", "text": format!("pub fn run_app() {{\n    tauri::Builder::default().invoke_handler(tauri::generate_handler![{}]);\n}}", listed.join(", "))}));
     }
     // a plain function with the name of a command, in another file (a thin command wrapper delegating to a backend helper)
     if nfiles >= 2 {
@@ -1143,7 +1174,7 @@ pub fn random_project(rng: &mut Rng, nfiles: usize, adversarial: bool, externs: 
         // nothing below the project path is excluded by that
         return json!({"files": files, "root_prefix": "clients/target/pos-app", "relative": true});
     }
-    json!({"files": files, "root_prefix": if adversarial && rng.chance(1, 6) { "x/target/y" } else { "" }, "reanalyse": rng.chance(1, 6)})
+    json!({"files": files, "root_prefix": if adversarial && rng.chance(1, 6) { "x/target/y" } else { "" }, "reanalyse": rng.chance(1, 6), "trailing_slash": rng.chance(1, 5)})
 }
 
 /// group `project`: whole-pipeline cases
